@@ -717,5 +717,6 @@ func c16Controls() []core.Mutant {
 		{Name: "ambiguous names documented", File: "docgen/docgen.go", Old: "\t\tif t.Ambiguous {\n\t\t\tcontinue\n\t\t}\n", New: "", Rule: "R16.3", Construct: "documented names"},
 		{Name: "methods gathered through the pointer type", File: "conf/types_table.go", Old: "\tcase reflect.Struct:\n\t\ttypes = FieldsFromStruct(d)\n", New: "\tcase reflect.Struct:\n\t\ttypes = FieldsFromStruct(d)\n\t\tt = reflect.PtrTo(d)\n", Rule: "R16.4", Construct: "method enumeration"},
 		{Name: "field lookup merges the own-field and the embedded pass", File: "checker/types.go", Old: "\t\t\t\tif f.Name == name && f.PkgPath == \"\" {\n\t\t\t\t\treturn f.Type, true\n\t\t\t\t}\n\t\t\t}\n\n\t\t\t// Second check fields of embedded structs.\n\t\t\tfor i := 0; i < ntype.NumField(); i++ {\n\t\t\t\tf := ntype.Field(i)\n\t\t\t\tif f.Anonymous {", New: "\t\t\t\tif f.Name == name && f.PkgPath == \"\" {\n\t\t\t\t\treturn f.Type, true\n\t\t\t\t}\n\t\t\t\tif f.Anonymous {", Edits: [][2]string{{"\t\t\t\t\tif t, ok := fieldType(f.Type, name); ok {\n\t\t\t\t\t\treturn t, true\n\t\t\t\t\t}\n\t\t\t\t}\n\t\t\t}\n\t\tcase reflect.Map:", "\t\t\t\t\tif t, ok := fieldType(f.Type, name); ok {\n\t\t\t\t\t\treturn t, true\n\t\t\t\t\t}\n\t\t\t\t}\n\t\t\t}\n\t\t\t_ = 0\n\t\tcase reflect.Map:"}}, Rule: "R16.5", Construct: "checker.fieldType"},
+		{Name: "own fields no longer filtered (control for the guard-clause reader)", File: "conf/types_table.go", Old: "\t\t\tif f.PkgPath == \"\" { // exported\n\t\t\t\ttypes[f.Name] = Tag{Type: f.Type}\n\t\t\t}\n", New: "\t\t\tif f.PkgPath != \"\" {\n\t\t\t\t_ = f\n\t\t\t}\n\t\t\ttypes[f.Name] = Tag{Type: f.Type}\n", Rule: "R16.1", Construct: "table entry keyed by"},
 	}
 }
